@@ -400,6 +400,11 @@ func getHWPos(segments []*segment, hw int64) (int, int64, error) {
 	if err != nil {
 		return 0, 0, err
 	}
+	if hwEntry.Offset > hw {
+		// The message at the HW is no longer in the log (e.g. removed by
+		// retention), so the first entry after it is not committed yet.
+		return hwIdx, hwEntry.Position, nil
+	}
 	return hwIdx, hwEntry.Position + int64(hwEntry.Size), nil
 }
 
